@@ -1,6 +1,6 @@
 #!/usr/bin/env python3
 """C10 hashes: B1 tours of MC_Hash + B2 random hash programmes (TraceKs.tla)."""
-import common, ks
+import common, ks, sched
 tier = common.tier_arg()
 LABELS = ('hset', 'hsetnx', 'hget', 'hmget', 'hgetall', 'hkeys', 'hvals', 'hlen', 'hexists', 'hstrlen', 'hdel', 'hincrby', 'hincrbyfloat', 'hrandfield')
 ks.family_check(
@@ -9,4 +9,4 @@ ks.family_check(
     b2_families=['hash'],
     level_text="", assumptions=['reference semantics = Redis command reference as transcribed in spec/KsHash.tla', 'float arithmetic only on the exactly-representable subset (DESIGN.md 2.4); operands longer than 15 bytes are unmodelled', 'B1 exhaustive within the instance bounds; B2 sampled'],
     b2_progs=400 if tier == "quick" else 6000,
-    label_filter=lambda b: b.split(".")[0] in LABELS)
+    label_filter=lambda b: b.split(".")[0] in LABELS, extra=sched.family_extra("C10", "hash"))
